@@ -217,16 +217,16 @@ def condSpec (c : Cond) : CondSpec :=
     { l := unq c.l, r := unq c.r, staticL := isStatic c.l, staticR := isStatic c.r, op := opOf c.op,
       hlp := [], hlpArg := [], lc := 0 }
 
-/-- Condition of a `case` of an argument-less switch (operands keep their quotes). -/
+/-- Condition of a `case` of an argument-less switch (quoted literals lose their quotes, like in `if`). -/
 def caseSpecCond (c : Cond) : CaseSpec :=
   if !c.hlp.isEmpty then
     { l := [], r := [], staticL := false, staticR := false, op := .unk, hlp := c.hlp, hlpArg := c.hlpArgs.map argOf }
   else
-    { l := c.l, r := c.r, staticL := isStatic c.l, staticR := isStatic c.r, op := opOf c.op, hlp := [], hlpArg := [] }
+    { l := unq c.l, r := unq c.r, staticL := isStatic c.l, staticR := isStatic c.r, op := opOf c.op, hlp := [], hlpArg := [] }
 
 /-- `case <value>` of a switch with argument. -/
 def caseSpecVal (v : Bytes) : CaseSpec :=
-  { l := v, r := [], staticL := isStatic v, staticR := false, op := .unk, hlp := [], hlpArg := [] }
+  { l := unq v, r := [], staticL := isStatic v, staticR := false, op := .unk, hlp := [], hlpArg := [] }
 
 /-! ### Text runs -/
 
@@ -331,7 +331,7 @@ def items (k : Bool) : Ast → List Item
   | .switch arg cases hd at_ dflt =>
     let cs := caseNodes k arg cases
     let groups := if hd then insertAt at_ (.default_ (assemble k (itemsL k dflt))) cs else cs
-    [.node (.switch arg (dropLastEmpty groups))]
+    [.node (.switch arg groups)]
   | .case_ c v body =>                    -- only reached for a case outside a switch (out of class)
     [.node (.case_ (if v.isEmpty then caseSpecCond c else caseSpecVal v) (assemble k (itemsL k body)))]
   | .cloop var init op lim step sep _ body he els =>
@@ -347,6 +347,7 @@ def items (k : Bool) : Ast → List Item
   | .include names _ => [.node (.incl names)]
   | .exit => [.node .exit]
   | .region kind body => .node (regionOpen kind) :: (itemsL k body ++ [.node (regionClose kind)])
+  | .rtag kind e => [.node (if e then regionClose kind else regionOpen kind)]
 
 def itemsL (k : Bool) : List Ast → List Item
   | [] => []
@@ -482,6 +483,7 @@ def inClass : Ast → Bool
   | .exit => true
   | .region kind body =>
     (kind == lit "jsonquote" || kind == lit "htmlescape" || kind == lit "urlencode") && inClassL body && runsOKb body
+  | .rtag kind _ => kind == lit "jsonquote" || kind == lit "htmlescape" || kind == lit "urlencode"
 
 def inClassL : List Ast → Bool
   | [] => true
